@@ -10,13 +10,21 @@ From Setec Require Import Base.SMap Acl.Glob Server.KV Server.DB Server.Lin Corr
 Open Scope N_scope.
 
 (* a call: index of the caller in the case's caller table, and the operation *)
-Definition lop := (nat * op V)%type.
+(* a call: index of the caller in the case's caller table, whether the file system accepts a
+   save while the call runs (false = the state directory is unreachable: a save the call
+   needs is REFUSED), and the operation *)
+Definition lop := (nat * bool * op V)%type.
 Definition lcall := call lop (result V).
 
 Definition okenv : env := {| save_ok := true; audit := AOk |}.
 
+Definition env_of (ok : bool) : env := {| save_ok := ok; audit := AOk |}.
+
+(* the sequential specification of one call.  With a refused save, [db_step] is the code as
+   written (mutate, save, undo): by C04's rollback_exact that is "no state change, an error" *)
 Definition lin_db_step (cs : list caller) (s : dbstate V) (o : lop) : dbstate V * result V :=
-  let '(s', r, _) := db_step N.eqb okenv s (get_caller cs (fst o)) (snd o) in (s', r).
+  let '(c, ok, op) := o in
+  let '(s', r, _) := db_step N.eqb (env_of ok) s (get_caller cs c) op in (s', r).
 
 (* the final sequential dump: the state served, the file reopened (with the version
    counters) and the write generation *)
